@@ -195,6 +195,11 @@ def gen(cls, idx, rng, tier):
         if rng.random() < .15:
             sinks.append(sinks[0])
         nets.append((src, sinks, rng.choice([1, 1.0, 0, 2.5])))
+    if rng.random() < .12:
+        # two streams between the same vertices: nets equal in every value
+        # (source, sinks, weight), told apart only by their keys
+        j = rng.randrange(len(nets))
+        nets.append((nets[j][0], list(nets[j][1]), nets[j][2]))
     kmode = "bitfield" if cls == "keys" and rng.random() < .5 else \
         rng.choice(["distinct", "prefix", "distinct"])
     keys = []
@@ -356,10 +361,13 @@ def run(case, ctx):
         bf.add_field("net")
         ks = [bf(kind=1, net=i) for i in range(len(nets))]
         bf.assign_fields()
-        net_keys = {n: (k.get_value(), k.get_mask())
-                    for n, k in zip(nets, ks)}
+        key_list = [(k.get_value(), k.get_mask()) for k in ks]
     else:
-        net_keys = {n: tuple(k) for n, k in zip(nets, case["keys"])}
+        key_list = [tuple(k) for k in case["keys"]]
+    net_keys = dict(zip(nets, key_list))
+    check(len(net_keys) == len(nets), "nets-collapse-as-dictionary-keys",
+          "%d distinct Net objects make %d keys of the {net: key} dictionary "
+          "the mapping functions take" % (len(nets), len(net_keys)))
     rng = _random.Random(case["seed"])
     placer = case["placer"]
     if placer.startswith("sa-"):
@@ -531,8 +539,7 @@ def run(case, ctx):
     shortened = unminimised is not None and any(
         len(tables.get(xy, ())) < len(tb) for xy, tb in unminimised.items())
     multi_chip = False
-    for net in nets:
-        key, mask = net_keys[net]
+    for net, (key, mask) in zip(nets, key_list):
         want = collections.Counter()
         for s in set(net.sinks):
             chip = tuple(placements[s])
